@@ -41,4 +41,7 @@ def run(ctx):
              "is not counted, so the block-protocol checks work from a stale count", sample={"rule": "DOM-all", "closure": g.name[-40:], "field": ".waiting_tx_count"})
         l = lin(hits[0][1])
         R.ob(l.k == 1 and len(l.terms) == 1, "WIRE", g.where(), "WIRE|counters|tx-count", "waiting_tx_count is not advanced by exactly one")
+    # a refused reorg changes nothing: the database's own window refusal comes before the first table is rolled back
+    import tablerules as T
+    T.clause_reorg_order(R, F)
     return R
